@@ -86,12 +86,15 @@ var c11Atoms = append(append([]ora.Atom{}, c13Atoms...),
 	ora.Atom{Name: "EMBp", Gen: func(t *ora.Tok) string {
 		return "<p>" + t.W(9) + " <b>" + t.W(2) + "</b>: <iframe src=\"http://www.youtube.com/embed/" + t.U() + "\"></iframe> " + t.W(11) + " <i>" + t.W(1) + "</i></p><p>" + t.W(8) + " <blockquote class=\"twitter-tweet\"><p>" + t.W(5) + "</p><a href=\"https://twitter.com/x/status/31337\">" + t.W(1) + "</a></blockquote> " + t.W(9) + "</p>"
 	}},
+	ora.Atom{Name: "STY", Gen: func(t *ora.Tok) string {
+		return "<div style=\"color: #c00\"><p>" + t.W(21) + "</p></div><p>" + t.W(9) + " <span style=\"color: #c00\">" + t.W(2) + "</span> " + t.W(3) + " <a style=\"color: #c00\" href=\"/x\">" + t.W(2) + "</a></p><p style=\"font-weight:bold\" hidden>" + t.W(4) + "</p><p style=\"font-weight:bold\">" + t.W(20) + "</p>"
+	}},
 	ora.Atom{Name: "LBL2", Gen: func(t *ora.Tok) string {
 		return "<div class=\"comment\"><h2>" + t.W(3) + "</h2><ul><li><h3>" + t.W(2) + "</h3>" + t.W(12) + "</li><li>" + t.W(20) + "</li></ul></div>"
 	}},
 )
 
-var c11Alphabet = []string{"Pc", "Pb", "H", "UL3", "TBLd", "IMG", "FIG", "YT", "YTq", "VMq", "TW", "PAGER", "PAGER2", "PAGER3", "LBL", "LBL2", "OG", "INL", "FALLB", "TBLcg", "TBLcol"}
+var c11Alphabet = []string{"Pc", "Pb", "H", "UL3", "TBLd", "IMG", "FIG", "YT", "YTq", "VMq", "TW", "PAGER", "PAGER2", "PAGER3", "LBL", "LBL2", "OG", "INL", "FALLB", "TBLcg", "TBLcol", "STY"}
 
 func c11Enumerate(tier string, emit func(*eng.Case)) {
 	thorough := tier == "thorough"
@@ -161,6 +164,13 @@ func c11Enumerate(tier string, emit func(*eng.Case)) {
 	seqEnum(hist, 3, func(seq []int) {
 		if len(seq) == 0 {
 			return
+		}
+		if len(seq) == 3 && tier != "thorough" {
+			for _, x := range seq {
+				if x >= 9 {
+					return // quick: triples over the first nine entries, pairs over all
+				}
+			}
 		}
 		var s []string
 		for _, x := range seq {
@@ -287,6 +297,7 @@ func c11MenuNamed(name string) []c11Call {
 			page(og("website", true, art), sc),
 			page("", sc+ie),
 			page("<meta name=\"IE_RM_OFF\" content=\"true\">"+og("article", true, art), sc),
+			strings.Replace(page(strings.ReplaceAll(og("article", true, art), "og:", "ogp:"), sc), "<html>", "<html xmlns:ogp=\"http://ogp.me/ns#\">", 1),
 		}
 		var m []c11Call
 		for _, d := range docs {
@@ -309,7 +320,28 @@ func c11MenuNamed(name string) []c11Call {
 		{d4, "", 0, 0, "apply-nil"},
 		{d2, "http://example.com/fetched/story?page=2", 0, 0, "url-nil"},
 		{d1, "", 0, 0, "reader-nil"},
+		{c11TitlePage("Short", "First Page Heading With Six Words"), "", 0, 0, "reader-nil"},
+		{c11TitlePage("Short", "Second Completely Different Heading Of The Page"), "", 0, 0, "reader-nil"},
+		{c11StylePage(true), "", 0, 0, "reader-nil"},
+		{c11StylePage(false), "", 0, 0, "reader-nil"},
 	}
+}
+
+func c11TitlePage(title, h1 string) string {
+	t := &ora.Tok{}
+	return "<html><head><title>" + title + "</title></head><body><div class=\"main\"><h1>" + h1 + "</h1><p>" + t.W(22) + "</p><p>" + t.W(23) + "</p><p>" + t.W(21) + "</p></div></body></html>"
+}
+
+// c11StylePage: the same inline style value on a block element and on inline elements, in either order
+func c11StylePage(blockFirst bool) string {
+	t := &ora.Tok{}
+	blk := "<div style=\"color: #c00\"><p>" + t.W(21) + "</p></div>"
+	inl := "<p>" + t.W(12) + " <span style=\"color: #c00\">" + t.W(2) + "</span> " + t.W(2) + " <a style=\"color: #c00\" href=\"/x\">" + t.W(3) + "</a></p>"
+	body := inl + "<p>" + t.W(22) + "</p>" + blk
+	if blockFirst {
+		body = blk + "<p>" + t.W(22) + "</p>" + inl
+	}
+	return "<html><head><title>" + ora.DefaultTitle + "</title></head><body><div class=\"main\">" + body + "<p>" + t.W(20) + "</p></div></body></html>"
 }
 
 func c11DoCall(cl c11Call, tmpdir string) (string, error) {
@@ -662,8 +694,8 @@ func init() {
 	eng.Register(&eng.Prop{
 		ID:        "C11",
 		DesignRef: "§5 C11",
-		Rule: "(1) map orders: for each corpus document - pagers of 6 pages whose 5 links each follow one of 3 (quick) / 4 (thorough) URL patterns, current page 2|4 / 1..6, both algorithms; S1,S2 with <= 1 / <= 2 insertions over 21 atoms (embeds with several query parameters, multi-label blocks, schema.org item, pagers) x flags {none, all} x both algorithms - a DFS explores every execution with <= 1 non-default iteration order (<= 2 on the pager corpus in thorough) at the range-over-map sites (all permutations for <= 4 keys; descending, rotations, adjacent transpositions above); the canonical result (all fields but TimingInfo) must be identical. " +
-			"(1c) warm vs fresh: every document of both corpora is distilled in the long-lived worker process (after thousands of other calls) and in a fresh process, and the two results must be equal. (2) histories: every sequence of <= 3 calls from a menu of 9 (document, options, entry point; including a page that starts with media, nil options and ApplyForURL(nil) through a stub transport), and every ordered pair from a 21-entry menu that distils two documents full of relative references (path-style and query-style pagers) under page URLs sharing hosts, directories and string prefixes, and every ordered pair (thorough: triple) from an 8-entry menu of pages whose OpenGraph/schema.org/IE metadata take different parser paths, runs in a fresh process; additionally, for every ordered pair of 5 page URLs and both algorithms, one URL object is used, overwritten in place by the caller and used again, and the second result must equal that of a freshly parsed equal URL; each call must equal the same call alone in a fresh process; package-variable writes after init are reported. (3) entry points: ApplyForReader == ApplyForFile == Apply(dom.Parse) on all byte-token strings of <= 2 / <= 3 tokens and the corpus. " +
+		Rule: "(1) map orders: for each corpus document - pagers of 6 pages whose 5 links each follow one of 3 (quick) / 4 (thorough) URL patterns, current page 2|4 / 1..6, both algorithms; S1,S2 with <= 1 / <= 2 insertions over 22 atoms (embeds with several query parameters, multi-label blocks, schema.org item, pagers) x flags {none, all} x both algorithms - a DFS explores every execution with <= 1 non-default iteration order (<= 2 on the pager corpus in thorough) at the range-over-map sites (all permutations for <= 4 keys; descending, rotations, adjacent transpositions above); the canonical result (all fields but TimingInfo) must be identical. " +
+			"(1c) warm vs fresh: every document of both corpora is distilled in the long-lived worker process (after thousands of other calls) and in a fresh process, and the two results must be equal. (2) histories: every sequence of <= 3 calls from a menu of 13 (document, options, entry point; two pages with the same short <title> and different h1, two pages using one inline style on block and inline elements in either order; including a page that starts with media, nil options and ApplyForURL(nil) through a stub transport), and every ordered pair from a 21-entry menu that distils two documents full of relative references (path-style and query-style pagers) under page URLs sharing hosts, directories and string prefixes, and every ordered pair (thorough: triple) from a 9-entry menu of pages whose OpenGraph/schema.org/IE metadata take different parser paths, runs in a fresh process; additionally, for every ordered pair of 5 page URLs and both algorithms, one URL object is used, overwritten in place by the caller and used again, and the second result must equal that of a freshly parsed equal URL; each call must equal the same call alone in a fresh process; package-variable writes after init are reported. (3) entry points: ApplyForReader == ApplyForFile == Apply(dom.Parse) on all byte-token strings of <= 2 / <= 3 tokens and the corpus. " +
 			"Non-trivial = an execution met a ranged map with >= 2 keys and a non-default order was explored; histories of >= 2 calls; inputs that parse.",
 		Enumerate:                 c11Enumerate,
 		Check:                     c11Check,
